@@ -18,6 +18,7 @@ from .. import gen
 from ..core import Check, jdigest, result_template
 from ..oracles import exacttime as xt
 from ..run import RunContext, build, cleanup, fmt_ts, history_digest, parse_ts, read_db, wrap_method
+from .common import over
 
 STEPS = [2, 3, 5, 7, 10, 13, 30, 59, 60, 61, 90, 100, 120, 300, 450, 600, 900, 1800, 3600]
 HI_2099 = dt.datetime(2099, 12, 31, 23, 59, 59)
@@ -197,7 +198,7 @@ class C05(Check):
                 jd = datetimeToJulianDate(t)
                 err = xt.jd_err_days(float(jd), us)
                 max_err = max(max_err, err)
-                if err > xt.JD_TOL_DAYS:
+                if over(err, xt.JD_TOL_DAYS):
                     viol.append({"clause": "julian-date-value", "key": t.isoformat(), "detail": f"datetimeToJulianDate({t.isoformat()})={float(jd)!r} off by {err:.3e} day"})
                 back = julianDateToDatetime(jd)
                 if back != t:
